@@ -218,8 +218,14 @@ fn perm_custom(_: DepsMut<MyQuery>, _: Env, m: Emit<MyMsg>) -> StdResult<Respons
     Ok(Response::new().add_submessages(subs(m)))
 }
 fn query_custom(deps: Deps<MyQuery>, _: Env, req: QueryRequest<MyQuery>) -> StdResult<Binary> {
-    // forward a query from inside the contract
-    deps.querier.query::<String>(&req).and_then(|s| to_json_binary(&s))
+    // forward a query from inside the contract — twice within this one call: each occurrence is the
+    // module's to answer (seed C17g: a querier that replays its first answer)
+    let first = deps.querier.query::<String>(&req);
+    let second = deps.querier.query::<String>(&req);
+    match (first, second) {
+        (Ok(a), Ok(_)) => to_json_binary(&a),
+        (Err(e), _) | (_, Err(e)) => Err(e),
+    }
 }
 fn exec_empty(_: DepsMut, _: Env, _: MessageInfo, m: Emit<Empty>) -> StdResult<Response> {
     Ok(Response::new().add_submessages(subs(m)))
@@ -434,8 +440,10 @@ fn queries() {
         app.wrap().query_grpc("/g".into(), Binary::from(vec![6])).map(|b| String::from_utf8_lossy(&b).to_string()).map_err(|e| e.to_string())
     };
     let entries: Vec<Entry> = LOG.with(|l| l.borrow().clone());
-    check_native("exactly_one_module_invocation", entries.len() == 1, || format!("{:?}", entries));
-    if let Some(e) = entries.first() {
+    // from inside the contract the query is made twice (both are issued whatever the first answers)
+    let expected = if inside { 2 } else { 1 };
+    check_native("every_query_reaches_its_module", entries.len() == expected, || format!("expected {} invocations: {:?}", expected, entries));
+    for e in entries.iter() {
         witness("routed");
         check_native("reaches_the_module_configured_for_its_kind", e.module == module && e.kind == "query", || format!("{:?} expected {}", e, module));
     }
